@@ -458,6 +458,13 @@ const F0: [&str; 11] = ["upcase", "downcase", "capitalize", "strip", "lstrip", "
 const F1S: [&str; 6] = ["append", "prepend", "remove", "remove_first", "split", "default"];
 const F2S: [&str; 2] = ["replace", "replace_first"];
 
+#[derive(Clone, Debug, Serialize, Deserialize)]
+pub struct LitArg {
+    pub src: String,
+    pub input: String,
+    pub expected: String,
+}
+
 fn ints() -> Vec<i64> {
     (-6..=8).collect()
 }
@@ -495,6 +502,35 @@ pub fn run(ctx: &Ctx) {
             let (f, args) = &filters[d[0] as usize];
             Some(Case { filter: f.to_string(), input: st(&s), args: args.clone() })
         }, oracle);
+    }
+    // arguments written as template literals whose content is / begins / ends with the other quote
+    {
+        let mut v = Vec::new();
+        for (q, o) in [('\'', '"'), ('"', '\'')] {
+            let input = format!("x{o}y{o}");
+            for (chain, expected) in [
+                (format!("remove: {q}{o}{q}"), "xy".to_string()),
+                (format!("replace: {q}{o}{q}, {q}_{q}"), "x_y_".to_string()),
+                (format!("split: {q}{o}{q} | join: {q}-{q}"), "x-y".to_string()),
+                (format!("append: {q}{o}{q}"), format!("{input}{o}")),
+                (format!("prepend: {q}{o}a{q}"), format!("{o}a{input}")),
+                (format!("remove_first: {q}y{o}{q}"), format!("x{o}")),
+                (format!("default: {q}{o}{q}"), input.clone()),
+                (format!("append: {q}{o}{o}{q} | size"), "6".to_string()),
+            ] {
+                // (split: no separator at the end of the input, trailing empty pieces are not the point here)
+                let input = if chain.starts_with("split") { format!("x{o}y") } else { input.clone() };
+                v.push(LitArg { src: format!("{{{{ v | {chain} }}}}"), input, expected });
+            }
+        }
+        ctx.cases("literal_arguments", v, |c: &LitArg, obs: &mut Obs| {
+            obs.nt(&c.src);
+            let got = lq::with_parser(Conf::Stdlib, |p| lq::run_rv(p, &c.src, &crate::rv::obj(vec![("v", st(&c.input))])));
+            match &got {
+                Ok(Ok(s)) if *s == c.expected => Ok(()),
+                other => Err(Failure::new("literal argument: a string literal holding the other quote character is not passed to the filter as written", format!("src={:?} v={:?} expected={:?} got={}", c.src, c.input, c.expected, lq::show(other)))),
+            }
+        });
     }
     let maxlen = ctx.pick(3, 4);
     let ns = strings_upto(maxlen);
